@@ -186,7 +186,9 @@ Fixpoint fwd_streams (strs : list (Z * stream)) (l : list (Z * Z)) : list (Z * s
   | [] => (strs, [])
   | (id, sq) :: l' =>
       let st := get_stream strs id in
-      let '(l2, seq2, ms) := pop_messages (reasm st) (uint16_add sq 1) in
+      (* the expected sequence number is only ever advanced *)
+      let seq1 := if uint16_gte sq (sseq_expected st) then uint16_add sq 1 else sseq_expected st in
+      let '(l2, seq2, ms) := pop_messages (reasm st) seq1 in
       let '(strs2, ms2) := fwd_streams (set_stream strs id (mkStream l2 seq2)) l' in
       (strs2, ms ++ ms2)
   end.
@@ -200,6 +202,17 @@ Fixpoint prune_all (strs : list (Z * stream)) (t : Z) : list (Z * stream) * Z :=
       ((id, mkStream r (sseq_expected st)) :: l2, size + size2)
   end.
 
+(* second delivery pass after pruning: poll the named streams again *)
+Fixpoint repop_streams (strs : list (Z * stream)) (l : list (Z * Z)) : list (Z * stream) * list message :=
+  match l with
+  | [] => (strs, [])
+  | (id, _) :: l' =>
+      let st := get_stream strs id in
+      let '(l2, seq2, ms) := pop_messages (reasm st) (sseq_expected st) in
+      let '(strs2, ms2) := repop_streams (set_stream strs id (mkStream l2 seq2)) l' in
+      (strs2, ms ++ ms2)
+  end.
+
 Definition receive_forward_tsn (s0 : rstate) (cum : Z) (strs : list (Z * Z)) : rstate * list message :=
   let s := mkR (last_rx s0) (misordered s0) (duplicates s0) (streams s0) (rwnd s0) true in
   if uint32_gte (last_rx s) cum then (s, [])
@@ -211,7 +224,8 @@ Definition receive_forward_tsn (s0 : rstate) (cum : Z) (strs : list (Z * Z)) : r
     let mis2 := filter (is_obsolete cum2) mis1 in
     let '(strs2, ms) := fwd_streams (streams s) strs in
     let '(strs3, pruned) := prune_all strs2 cum in
-    (mkR cum2 mis2 dups strs3 (rwnd s + msgs_len ms + pruned) true, ms).
+    let '(strs4, ms') := repop_streams strs3 strs in
+    (mkR cum2 mis2 dups strs4 (rwnd s + msgs_len ms + pruned + msgs_len ms') true, ms ++ ms').
 
 (* _send_sack: gap blocks over the serially sorted out-of-order TSNs *)
 Fixpoint gap_blocks (cum : Z) (sorted : list Z) (cur : option (Z * Z * Z)) : list (Z * Z) :=
